@@ -437,7 +437,7 @@ def run(tier, seed):
     if tier == 'quick':
         plan = [(a, 3, 0, V, None, 0) for a in names]
         plan += [(a, 4, 4, ['3.8', '3.11', '3.12', '3.14'], None, 0) for a in ('num', 'opchars', 'indent', 'contstr')]
-        plan.append(('contstr', 5, 5, ['3.8', '3.13'], None, 0))
+        plan.append(('contstr', 5, 5, ['3.8'], None, 0))
         k = ('strchars', 'ws', 'chars')[seed % 3]
         plan.append((k, 4, 4, ['3.8', '3.13'], 8, seed % 8))
     else:
@@ -449,7 +449,7 @@ def run(tier, seed):
     splan = []
     for v in V:
         splan.append((v, 8 if tier == 'quick' else 11, 'g2', 4))
-        if tier != 'quick' or v in ('3.7', '3.11', '3.13'):
+        if tier != 'quick' or v in ('3.8', '3.13'):
             splan.append((v, 6 if tier == 'quick' else 8, 'dev', 8 if tier == 'quick' else 16))
     for j, (v, L, mode, nsh) in enumerate(splan):
         jobs += [((len(plan) + j, 'S', v, L, s, nsh, mode),) for s in range(nsh)]
